@@ -97,6 +97,9 @@ package doublylinkedlist
 //@   modifies each e like list.first where e.owner == list : e.next, e.prev, e.idx
 //@   at exit: if old(InRange(list, index)) && old(list.size) > 1 then list.nodes := \i. ite(i < index, old(list.nodes[i]), old(list.nodes[i+1]))
 //@   at exit: if old(InRange(list, index)) && old(list.size) > 1 then all element.idx := \x like list.first => ite(x.owner == list && index < old(x.idx) && old(x.idx) < old(list.size) && old(list.nodes[x.idx]) == x, old(x.idx) - 1, old(x.idx))
+//@   assert exit: old(InRange(list, index)) && old(list.size) > 1 ==> (forall i :: 0 <= i && i < index - 1 ==> list.nodes[i].next == list.nodes[i+1] && list.nodes[i+1].prev == list.nodes[i])
+//@   assert exit: old(InRange(list, index)) && old(list.size) > 1 && index >= 1 && index <= list.size - 1 ==> list.nodes[index-1].next == list.nodes[index] && list.nodes[index].prev == list.nodes[index-1]
+//@   assert exit: old(InRange(list, index)) && old(list.size) > 1 ==> (forall i :: index <= i && i < list.size - 1 ==> list.nodes[i].next == list.nodes[i+1] && list.nodes[i+1].prev == list.nodes[i])
 //@   ensures [C03 C09 C17] Inv(list)
 //@   ensures [C03 C09] removed: old(InRange(list, index)) ==> Seq(list) == old(Seq(list))[:index] ++ old(Seq(list))[index+1:]
 //@   ensures [C03 C09] noop: !old(InRange(list, index)) ==> Seq(list) == old(Seq(list)) && list.size == old(list.size)
